@@ -470,6 +470,9 @@ type c13Obs struct {
 	Effects []string
 	Total   int
 	Fails   int
+	// text of the failed-test errors (Eval's TestErrors / fail-fast error) without
+	// the "line L column C: " prefixes; only meaningful when Class == "test"
+	FailText string
 }
 
 func implClass(out RunOutcome) string {
@@ -524,8 +527,16 @@ func c13Impl(c *c13Case) (c13Obs, RunOutcome, string) {
 	}
 	obs.Total = out.Eval.TestInfo.TotalCount()
 	obs.Fails = out.Eval.TestInfo.FailCount()
+	if obs.Class == "test" {
+		obs.FailText = stripPositions(out.ErrText)
+	}
 	return obs, out, src
 }
+
+var rePosPrefix = regexp.MustCompile(`(?m)^line \d+ column \d+: `)
+
+// stripPositions removes the source positions in front of each error line
+func stripPositions(s string) string { return rePosPrefix.ReplaceAllString(s, "") }
 
 func c13StopKind(out RunOutcome) string {
 	switch {
@@ -562,7 +573,14 @@ func c13Model(c *c13Case, model *Model) (c13Obs, SX, error) {
 	}
 	obs := c13Obs{Class: x.L[1].S}
 	obs.Total, _ = strconv.Atoi(x.L[3].S)
-	obs.Fails, _ = strconv.Atoi(x.L[4].S)
+	obs.Fails = len(x.L[4].L)
+	texts := []string{}
+	for _, m := range x.L[4].L {
+		texts = append(texts, "failed test: "+fillMarkers(m.S))
+	}
+	if obs.Class == "test" {
+		obs.FailText = strings.Join(texts, "\n")
+	}
 	for _, cr := range x.L[5].L {
 		o := cr.L[0]
 		var r string
@@ -666,6 +684,8 @@ func c13Check(c *c13Case, model *Model, r *Result) {
 		diff = "effects"
 	case impl.Class != "parse-error" && (impl.Total != mobs.Total || impl.Fails != mobs.Fails):
 		diff = "test-counts"
+	case impl.Class == "test" && impl.FailText != mobs.FailText:
+		diff = "test-messages"
 	}
 	if diff != "" {
 		name := ""
@@ -681,8 +701,8 @@ func c13Check(c *c13Case, model *Model, r *Result) {
 		r.Violate(Violation{Kind: "correspondence", Key: "builtin-differs:" + name + ":" + diff,
 			Detail: "the implementation and the model of the built-ins (to which the C13 theorems apply) disagree on " + diff,
 			Input:  c13Input(c, src),
-			Impl:   map[string]any{"class": impl.Class, "calls": ic, "effects": ie, "total": impl.Total, "fails": impl.Fails, "err": out.ErrText + out.ParseErr + out.GoPanic},
-			Model:  map[string]any{"class": mobs.Class, "calls": mc, "effects": me, "total": mobs.Total, "fails": mobs.Fails}})
+			Impl:   map[string]any{"class": impl.Class, "calls": ic, "effects": ie, "total": impl.Total, "fails": impl.Fails, "failtext": impl.FailText, "err": out.ErrText + out.ParseErr + out.GoPanic},
+			Model:  map[string]any{"class": mobs.Class, "calls": mc, "effects": me, "total": mobs.Total, "fails": mobs.Fails, "failtext": mobs.FailText}})
 	}
 	if len(r.Samples) < 4 && nontrivial {
 		r.Sample(map[string]any{"program": src, "impl": ic, "class": impl.Class})
@@ -749,6 +769,27 @@ func c13PropertyOracles(c *c13Case, impl c13Obs, out RunOutcome, src string, r *
 	if out.Class == "budget" || out.Class == "internal" || strings.HasPrefix(out.Class, "unknown") {
 		viol("bad-outcome:"+out.Class, "a sequence of built-in calls ended with "+out.Class)
 		return
+	}
+	// docs/builtins.md, test: "In the case of three arguments, the third argument is a
+	// message of type string that is printed if the test fails" — verbatim; it is a
+	// format string only with four or more arguments
+	if out.Class == "test" {
+		for i, call := range c.Calls {
+			if i >= len(impl.Calls) {
+				break // not executed (fail-fast stopped the run before it)
+			}
+			if call.Name != "test" || len(call.Args) != 3 || call.Args[2].K != "str" {
+				continue
+			}
+			w, g := call.Args[0], call.Args[1]
+			basic := func(v cVal) bool { return v.K == "num" || v.K == "str" || v.K == "bool" }
+			if !basic(w) || !basic(g) || (w.K == g.K && w.S == g.S && w.B == g.B && (w.F == g.F || w.K != "num")) {
+				continue // not certainly failing
+			}
+			if !strings.Contains(impl.FailText, " ("+call.Args[2].S+")") {
+				viol("test-message-not-verbatim", fmt.Sprintf("a failing `test want got %q` with exactly three arguments must report the message verbatim; reported: %s", call.Args[2].S, impl.FailText))
+			}
+		}
 	}
 	for i, call := range c.Calls {
 		ret, ok := implRet(impl, i)
@@ -1061,8 +1102,34 @@ func genCall(rng *rand.Rand) cCall {
 	return cCall{Name: sig.name, Args: genArgs(rng, sig)}
 }
 
+// messages for failing tests: plain text with '%' in every position a format
+// string would give it a meaning (3 arguments: verbatim; 4 or more: format)
+var c13PctMsgs = []string{"score below 100% of target", "100%", "%", "%%", "%v", "%d", "a %v b %d", "50%% done", "%5", "trailing %", "é %s", "%!", "%q and %v", "no percent", "%.2f%%", "% v"}
+
+// a test that certainly fails, with a 3- or 4-or-more-argument message
+func genFailingMsgTest(rng *rand.Rand) cCall {
+	want, got := vNum(float64(rng.Intn(5))), vNum(float64(5+rng.Intn(5)))
+	switch rng.Intn(4) {
+	case 0:
+		want, got = vStr("a"), vStr(genStr(rng)+"b")
+	case 1:
+		want, got = vBool(true), vBool(false)
+	}
+	args := []cVal{want, got, vStr(pick(rng, c13PctMsgs))}
+	if rng.Intn(2) == 0 {
+		n := 1 + rng.Intn(2)
+		for i := 0; i < n; i++ {
+			args = append(args, genBasic(rng))
+		}
+	}
+	return cCall{Name: "test", Args: args}
+}
+
 // test calls: pass / fail / bad arguments, with and without messages
 func genTestCall(rng *rand.Rand) cCall {
+	if rng.Intn(4) == 0 {
+		return genFailingMsgTest(rng)
+	}
 	switch rng.Intn(10) {
 	case 0:
 		return cCall{Name: "test", Args: []cVal{vBool(true)}}
@@ -1184,6 +1251,10 @@ func c13Corpus() []*c13Case {
 		mk("printf-noformat", call("printf")), mk("printf-numformat", call("printf", vNum(1))), mk("sprintf-noformat", call("sprintf")),
 		mk("len-badarg", call("len", vNum(1))), mk("len-any", call("len", vAny(vStr("äb")))),
 		mk("test-badargs-counted", call("test", vNum(1), vNum(2), vNum(3))),
+		mk("test-message-3args-verbatim", call("test", vNum(100), vNum(90), vStr("score below 100% of target")), call("test", vNum(1), vNum(2), vStr("%v %d %%")), call("test", vNum(1), vNum(2), vStr("trailing %"))),
+		mk("test-message-4args-format", call("test", vNum(1), vNum(2), vStr("val is %v"), vNum(2)), call("test", vNum(1), vNum(2), vStr("%d%% %v"), vNum(2), vStr("x")), call("test", vStr("a"), vStr("b"), vStr("50%% of %q"), vStr("b"))),
+		mk("test-message-none", call("test", vNum(1), vNum(2)), call("test", vBool(false))),
+		{Origin: "test-message-failfast", FailFast: true, Calls: []cCall{call("test", vBool(true)), call("test", vNum(100), vNum(90), vStr("100%")), call("test", vBool(false))}},
 		mk("exit-0-after-fail", call("test", vBool(false)), call("exit", vNum(0))),
 	}
 }
@@ -1230,7 +1301,7 @@ func runC13(cfg Config, r *Result) {
 		return
 	}
 	defer model.Close()
-	r.Rule = "a case = a sequence of 1-8 built-in calls (every non-graphics built-in; argument values drawn from boundary classes: empty, non-ASCII (2/3/4-byte), identifier-like and non-identifier map keys, negative, fractional, halves, 2^31, 2^53, 2^63, huge, subnormal, ±Inf, NaN, ±0; formats over every verb/flag/width/precision form incl. malformed ones; histories of conversions for err/errmsg; histories of test outcomes with fail-fast/no-summary, ended by exit/panic) rendered as a real evy program and run on the real evaluator and on the extracted model; compared: structural dump of every result (numbers by bit pattern), err/errmsg after every call, platform effects, class of Eval's result, test totals; plus every documented example of docs/builtins.md and docs/spec.md (exact output) and exit status/stdout/stderr of the real `evy run` binary; non-trivial = at least one call with arguments; distinct = distinct (flags, inputs, calls with argument values)"
+	r.Rule = "a case = a sequence of 1-8 built-in calls (every non-graphics built-in; argument values drawn from boundary classes: empty, non-ASCII (2/3/4-byte), identifier-like and non-identifier map keys, negative, fractional, halves, 2^31, 2^53, 2^63, huge, subnormal, ±Inf, NaN, ±0; formats over every verb/flag/width/precision form incl. malformed ones; histories of conversions for err/errmsg; histories of test outcomes with fail-fast/no-summary, ended by exit/panic) rendered as a real evy program and run on the real evaluator and on the extracted model; compared: structural dump of every result (numbers by bit pattern), err/errmsg after every call, platform effects, class of Eval's result, test totals, the text of the failed-test errors (positions stripped; failing 3- and >=4-argument tests with '%' in the message in every position); plus every documented example of docs/builtins.md and docs/spec.md (exact output) and exit status/stdout/stderr (incl. the failed-test messages) of the real `evy run` binary; non-trivial = at least one call with arguments; distinct = distinct (flags, inputs, calls with argument values)"
 	if cfg.Replay != "" {
 		if c13Replay(cfg.Replay, model, r) {
 			return
